@@ -114,6 +114,19 @@ CHECKS["C08"] = dict(
     ref="4/C08",
 )
 
+CHECKS["C11"] = dict(
+    technique="runtime-vs-static oracle: lookups (RenderContext.get/get_async/resolve), applied filters, rendered tags and names reaching an instrumented global mapping are recorded on real renders and must each be covered by analyze() at the same template/span; every reported span is cut out of the source and re-lexed; analyze_async and the 16 helper methods compared with analyze()",
+    text="Exploration: ~2.9e5 (quick) / 1e7 (thorough) runtime facts from ~1.2e3 generated cases (purpose-built generator with its own position map + the shared typed grammar; partials in sub-directories, extends chains, lambdas, macros, translate, tablerow, liquid tags, comments before markup) rendered with 6 data sets each so branches execute; ~1.7e5 spans re-lexed and compared with the generator's position map.",
+    note="Trusted: the harness's template-identification by token.source; names bound anywhere in the template set are excluded from the globals clause (conservative reading), so scope-leak bugs are out of reach here (C07 covers them).",
+    ref="4/C11",
+)
+CHECKS["C14"] = dict(
+    technique="recorded histories of load-and-render / modify / delete / fail steps on real caching loaders checked against an LRU reference model fed by the uncached twin's answers; exhaustive enumeration of short histories, seeded long histories, enumerated interleavings of concurrent async callers, LRUCache differential and a thread stress at quiescent points",
+    text="Exploration with exhaustive families: 9.9e5 canonical histories of length <= 3 (<= 4 uniform-mode) over 5 caching loader families x capacity {1,2,3} x auto_reload {on,off} (thorough: 1.8e7, length <= 4 / 5), 4.5e4 deeper sync histories that make eviction order observable, 4.8e3 random histories of length <= 40 with full twin renders, all 1e4 interleavings of 204 concurrent-caller scenarios; 3.5e6 steps compared in quick.",
+    note="Trusted: the reference model (vf/c14_lru.py, imports nothing from liquid2); file mtimes set explicitly and strictly increasing; file-system async interleavings not controlled.",
+    ref="4/C14",
+)
+
 NOT_YET = {}
 
 def main():
